@@ -26,7 +26,7 @@ done <<'MAP'
 22 C03 C01
 23 C08 C04 C13
 24 C10
-25 C11 C10 C03
+# 25 and 64 are no longer property-preserving: struct{ any } renders as struct {interface{}} (DESIGN 8.6)
 26 C12 C06 C16
 27 C15 C03 C11
 28 C02 C06
@@ -49,7 +49,7 @@ done <<'MAP'
 61 C12 C06 C16 C13
 62 C13 C08 C04 C07
 63 C10 C04 C01
-64 C11 C10 C03 C17 C18
+64 C17 C18
 65 C15 C11 C03
 66 C08 C04 C07 C02
 67 C17 C04 C05
